@@ -25,6 +25,8 @@ pub enum Kind {
     GetPrimitive,
     GetDict,
     GetInt,
+    /// get::<CryptDict>: the typed view of the encryption dictionary
+    GetCryptDict,
     StreamData,
     RawImageData,
     ImageData,
@@ -95,9 +97,51 @@ pub fn alphabet_deep() -> Vec<Call> {
     a
 }
 
+/// variant 3: an RC4-encrypted document (user password "user") whose encryption dictionary is an indirect object and
+/// keeps its /O and /U strings in objects of their own: what is read before the decoder exists must not stay cached
+fn encrypted_doc() -> Vec<u8> {
+    use crate::pdfgen::crypt::*;
+    let id0 = b"0123456789abcdef".to_vec();
+    let sec = Security::new(Variant::R3(16), b"user", b"owner", -4, &id0, true);
+    let mut fb = FileBuilder::new(b"");
+    let crypt = |n: u64, g: u16, d: &[u8]| sec.encrypt(n, g, d);
+    fb.crypt = Some(&crypt);
+    fb.no_crypt = vec![9, 10, 11];
+    fb.add(1, 0, &Val::dict(vec![("Type", Val::name("Catalog")), ("Pages", Val::r(2))]));
+    fb.add(2, 0, &Val::dict(vec![("Type", Val::name("Pages")), ("Kids", Val::Array(vec![Val::r(3)])), ("Count", Val::Int(1)), ("MediaBox", Val::ints(&[0, 0, 9, 9]))]));
+    fb.add(3, 0, &Val::dict(vec![("Type", Val::name("Page")), ("Parent", Val::r(2)), ("Resources", Val::dict(vec![])), ("Contents", Val::r(4)), ("Note", Val::str("a string of the page"))]));
+    fb.add(4, 0, &Val::stream(vec![], b"q 1 0 0 1 0 0 cm Q".to_vec()));
+    let mut d = sec.dict();
+    d.set("O", Val::r(10));
+    d.set("U", Val::r(11));
+    fb.add(9, 0, &d);
+    fb.add(10, 0, &Val::Str(sec.o.clone()));
+    fb.add(11, 0, &Val::Str(sec.u.clone()));
+    fb.finish_table(&[("Root", Val::r(1)), ("Encrypt", Val::r(9)), ("ID", Val::Array(vec![Val::Str(id0.clone()), Val::Str(id0.clone())]))], Split::Runs);
+    fb.bytes()
+}
+
+pub fn alphabet_encrypted() -> Vec<Call> {
+    use Kind::*;
+    let mut a: Vec<Call> = vec![];
+    for n in [9u64, 10, 11, 3, 4] {
+        a.push((Resolve, n));
+        a.push((GetPrimitive, n));
+    }
+    a.push((GetCryptDict, 9));
+    a.push((GetDict, 9));
+    a.push((GetDict, 3));
+    a.push((StreamData, 4));
+    a.push((GetPage, 0));
+    a
+}
+
 pub fn c12_doc(variant: usize) -> Vec<u8> {
     if variant == 2 {
         return deep_doc();
+    }
+    if variant == 3 {
+        return encrypted_doc();
     }
     let mut objs = rich_objects();
     let img: Vec<u8> = vec![10, 20, 30, 40, 50, 60, 70, 80, 90, 100, 110, 120];
@@ -156,6 +200,9 @@ pub fn alphabet_wide(variant: usize) -> Vec<Call> {
     use Kind::*;
     if variant == 2 {
         return alphabet_deep();
+    }
+    if variant == 3 {
+        return alphabet_encrypted();
     }
     let mut a: Vec<Call> = vec![];
     let mut objs: Vec<u64> = (1..=38).collect();
@@ -247,6 +294,10 @@ where
             Ok(d) => show_val(&crate::walker::prim_to_val_hashed(&pdf::primitive::Primitive::Dictionary((*d).clone()), &r)),
             Err(x) => e(&x),
         },
+        Kind::GetCryptDict => match r.get::<pdf::crypt::CryptDict>(Ref::new(pr)) {
+            Ok(d) => format!("CryptDict#{:016x}", fnv(format!("{:?}", *d).as_bytes())),
+            Err(x) => e(&x),
+        },
         Kind::GetInt => match r.get::<i32>(Ref::new(pr)) {
             Ok(i) => format!("Int({})", *i),
             Err(x) => e(&x),
@@ -294,11 +345,11 @@ pub fn run_sequence(bytes: &[u8], cfg: usize, seq: &[Call]) -> Vec<String> {
     }
     let po = if cfg >= N_CACHE_CONFIGS { ParseOptions::tolerant() } else { ParseOptions::strict() };
     match cfg % N_CACHE_CONFIGS {
-        0 => go!(FileOptions::cached().parse_options(po)),
-        1 => go!(FileOptions::uncached().cache(SyncCache::<PlainRef, OCResult>::new(), NoCache).parse_options(po)),
-        2 => go!(FileOptions::uncached().cache(NoCache, SyncCache::<PlainRef, SCResult>::new()).parse_options(po)),
-        3 => go!(FileOptions::uncached().cache(SeqCache::<OCResult>::new(), SeqCache::<SCResult>::new()).parse_options(po)),
-        _ => go!(FileOptions::uncached().parse_options(po)),
+        0 => go!(FileOptions::cached().parse_options(po).password(b"user")),
+        1 => go!(FileOptions::uncached().cache(SyncCache::<PlainRef, OCResult>::new(), NoCache).parse_options(po).password(b"user")),
+        2 => go!(FileOptions::uncached().cache(NoCache, SyncCache::<PlainRef, SCResult>::new()).parse_options(po).password(b"user")),
+        3 => go!(FileOptions::uncached().cache(SeqCache::<OCResult>::new(), SeqCache::<SCResult>::new()).parse_options(po).password(b"user")),
+        _ => go!(FileOptions::uncached().parse_options(po).password(b"user")),
     }
 }
 
@@ -532,17 +583,21 @@ pub fn run(tier: Tier, _seed: u64, tally: &mut Tally) -> CheckMeta {
         }
     }
     // deep chain: all sequences of length <= 2 under every configuration, length 3 under the two full cache configurations
-    let n_deep;
-    {
-        let bytes = c12_doc(2);
-        let alpha = alphabet_deep();
-        n_deep = alpha.len();
+    let mut n_deep = 0;
+    for dv in [2usize, 3] {
+        let bytes = c12_doc(dv);
+        let alpha = alphabet_wide(dv);
+        if dv == 2 {
+            n_deep = alpha.len();
+        }
         for tolerant in [false, true] {
             let off = if tolerant { N_CACHE_CONFIGS } else { 0 };
             let reference: std::collections::HashMap<Call, String> = alpha.iter().map(|c| (*c, run_sequence(&bytes, off + 4, &[*c]).pop().unwrap())).collect();
             for (c, a) in &reference {
+                // a document of the check that does not open would make every comparison trivially equal
+                assert!(!a.starts_with("LOAD-"), "C12 document {} does not load: {}", dv, a);
                 if a.starts_with("ERR:") {
-                    tally.notes.push(format!("deep chain ({}): {} alone answers {}", if tolerant { "tolerant" } else { "strict" }, call_name(c), a));
+                    tally.notes.push(format!("document {} ({}): {} alone answers {}", dv, if tolerant { "tolerant" } else { "strict" }, call_name(c), a));
                 }
             }
             let n = alpha.len();
@@ -551,12 +606,12 @@ pub fn run(tier: Tier, _seed: u64, tally: &mut Tally) -> CheckMeta {
                 .map(|i| {
                     let mut t = Tally::new();
                     for cfg in 0..N_CACHE_CONFIGS {
-                        check_seq(&bytes, &reference, 2, off + cfg, &[alpha[i]], &mut t);
+                        check_seq(&bytes, &reference, dv, off + cfg, &[alpha[i]], &mut t);
                         for j in 0..n {
-                            check_seq(&bytes, &reference, 2, off + cfg, &[alpha[i], alpha[j]], &mut t);
+                            check_seq(&bytes, &reference, dv, off + cfg, &[alpha[i], alpha[j]], &mut t);
                             if cfg == 0 || cfg == 3 || tier.thorough() {
                                 for k in 0..n {
-                                    check_seq(&bytes, &reference, 2, off + cfg, &[alpha[i], alpha[j], alpha[k]], &mut t);
+                                    check_seq(&bytes, &reference, dv, off + cfg, &[alpha[i], alpha[j], alpha[k]], &mut t);
                                 }
                             }
                         }
@@ -580,7 +635,7 @@ pub fn run(tier: Tier, _seed: u64, tally: &mut Tally) -> CheckMeta {
     CheckMeta {
         prop: "C12",
         level: "model_checking",
-        rule: format!("call alphabet of {} (kind, object) pairs on two generated documents (classic; xref stream + object stream) containing pages, fonts, a Flate image with predictor, a hex+run-length mask, an [ASCII85 Flate] image, a form and content streams: kinds resolve, get::<PagesNode|Font|XObject|Stream|ObjectStream>, Stream::data, raw_image_data, image_data, get_page (incl. type-mismatching and out-of-range calls). Exhaustive: all sequences of length <= 2 under 5 cache configurations {{SyncCache both, object only, stream only, own map-backed caches, none}} with strict and with tolerant options, all sequences of length 3 under {}, every ordering (all permutations) of the distinct calls per object, and all ordered pairs over a wide alphabet of {} calls (resolve and get::<PagesNode|Font|XObject|Stream|Primitive|Dictionary|i32> on every object of the document incl. an integer and a reference-only object, page look-ups) under all 5 configurations; a third document with a chain of 70 page-tree nodes nested through /Parent and {} calls (typed load and resolve of every 8th node, of nodes 31-33 and of the last, typed loads of page-tree nodes whose /Parent references form cycles of two and of three), strict and tolerant options: all sequences of length <= 2 under every configuration and of length 3 under the two full cache configurations; plus the complete walk of {} repository files cached vs uncached (strict and tolerant). Each answer is compared with the same call made alone on a fresh uncached document (canonical digest / root-cause error variant).", total_alpha, if tier.thorough() { "every configuration" } else { "both-caches and own-map-caches" }, total_wide, n_deep, n_corpus),
+        rule: format!("call alphabet of {} (kind, object) pairs on two generated documents (classic; xref stream + object stream) containing pages, fonts, a Flate image with predictor, a hex+run-length mask, an [ASCII85 Flate] image, a form and content streams: kinds resolve, get::<PagesNode|Font|XObject|Stream|ObjectStream>, Stream::data, raw_image_data, image_data, get_page (incl. type-mismatching and out-of-range calls). Exhaustive: all sequences of length <= 2 under 5 cache configurations {{SyncCache both, object only, stream only, own map-backed caches, none}} with strict and with tolerant options, all sequences of length 3 under {}, every ordering (all permutations) of the distinct calls per object, and all ordered pairs over a wide alphabet of {} calls (resolve and get::<PagesNode|Font|XObject|Stream|Primitive|Dictionary|i32> on every object of the document incl. an integer and a reference-only object, page look-ups) under all 5 configurations; a third document with a chain of 70 page-tree nodes nested through /Parent and {} calls (typed load and resolve of every 8th node, of nodes 31-33 and of the last, typed loads of page-tree nodes whose /Parent references form cycles of two and of three), strict and tolerant options, and a fourth, RC4-encrypted document whose encryption dictionary is indirect and keeps /O and /U in objects of their own (resolve and generic views of these objects, get::<CryptDict>, page string and stream): all sequences of length <= 2 under every configuration and of length 3 under the two full cache configurations; plus the complete walk of {} repository files cached vs uncached (strict and tolerant). Each answer is compared with the same call made alone on a fresh uncached document (canonical digest / root-cause error variant).", total_alpha, if tier.thorough() { "every configuration" } else { "both-caches and own-map-caches" }, total_wide, n_deep, n_corpus),
         assumptions: vec!["digests are independent of HashMap iteration order and file offsets".into()],
         exhaustive: true,
         bounds: json!({"sequence_len": maxlen}),
